@@ -23,9 +23,9 @@ DEMO=$(ls $SRC/demo/*_test.go 2>/dev/null | head -1)
 REL=$(head -5 "$DEMO" | grep -o 'pkg/[a-z0-9_]*/[A-Za-z0-9_]*_test\.go' | head -1)
 PKG=$(dirname "$REL")
 cp "$DEMO" "$WT/$REL"
-DW=pass; go test -vet=off -count=1 -run 'Seed' ./$PKG/ > /tmp/keepseed.$TAG.demo_with 2>&1 || DW=FAIL
+DW=pass; go test ${DEMO_FLAGS:-} -vet=off -count=1 -run 'Seed' ./$PKG/ > /tmp/keepseed.$TAG.demo_with 2>&1 || DW=FAIL
 git stash -q -- $(git diff --name-only) 2>/dev/null || git checkout -q -- $(git diff --name-only)
-DWO=pass; go test -vet=off -count=1 -run 'Seed' ./$PKG/ > /tmp/keepseed.$TAG.demo_without 2>&1 || DWO=FAIL
+DWO=pass; go test ${DEMO_FLAGS:-} -vet=off -count=1 -run 'Seed' ./$PKG/ > /tmp/keepseed.$TAG.demo_without 2>&1 || DWO=FAIL
 echo "$TAG: suite_with_change=$SUITE demo_with_change=$DW demo_without_change=$DWO"
 if [ "$SUITE" != pass ] || [ "$DW" != FAIL ] || [ "$DWO" != pass ]; then echo "$TAG: NOT a valid seeded change, not kept"; tail -5 /tmp/keepseed.$TAG.suite /tmp/keepseed.$TAG.demo_with /tmp/keepseed.$TAG.demo_without; exit 4; fi
 mkdir -p $DST/demo
